@@ -30,6 +30,10 @@ FAMILY = [
     ("p/readv-u", "p", False),
     ("p/sub", "p", False),                 # sub-evaluation from inside the command (stub answers one/addn-2)
 ]
+# what the STATEMENT says about the action itself (the oracle never reads this off the implementation's output):
+#   plain = cacheable when the predecessor is; volatile / fails / nocache = never retrievable as data
+ACTION_KIND = {"p/addn-5": "plain", "p/vol": "volatile", "p/boom": "fails", "p/addn-x": "fails", "p/setv-7": "plain", "p/nocache": "nocache",
+               "p/mut": "plain", "p/addn-%35": "plain", "p/addn-5/res.json": "plain", "p/addn": "plain", "p/readv-u": "plain", "p/sub": "plain"}
 
 CONFIGS = ["memory", "proxy(memory)", "memory+memory", "nocache+memory", "memory.if_contains(Keep)+memory",
            "memory.if_not_contains(volatile)+memory", "memory.if_attribute_equal(Keep,k2)+memory",
@@ -97,7 +101,10 @@ def ob_cache_step(v: int, perr: bool, pvol: bool, pcaching: bool, pvar: int, pre
             keyref = c00.evaluate(q)
         else:
             keyref = ref
-        admissible = (not keyref.is_error) and (not keyref.is_volatile()) and bool(keyref.metadata.get("caching", True))
+        # admission as the STATEMENT defines it: finished, successful, non-volatile, caching not switched off at or upstream
+        admissible = (not perr) and (not pvol) and bool(pcaching) and ACTION_KIND[q] == "plain"
+        if bool(keyref.is_error) != (perr or ACTION_KIND[q] == "fails"):
+            return check(False, "reference-disagrees")     # the cache-less step itself contradicts the statement (C06 / C01 territory)
         with nt():
             cache = mkcache(ci)
         if pre == 1:
@@ -143,7 +150,7 @@ def ob_cache_step(v: int, perr: bool, pvol: bool, pcaching: bool, pvar: int, pre
                     ok = ok and admissible and (not g.is_error) and outcome(g)[:2] == outcome(keyref)[:2]
                 else:
                     ok = False
-            failed_or_volatile = out.is_error or out.is_volatile() or not out.metadata.get("caching", True)
+            failed_or_volatile = not admissible
             if failed_or_volatile or use_extra:
                 g = cache.get(canonical)
                 ok = ok and (g is None or (admissible and pre == 2 and not use_extra))
@@ -152,6 +159,46 @@ def ob_cache_step(v: int, perr: bool, pvol: bool, pcaching: bool, pvar: int, pre
             if (not failed_or_volatile) and (not use_extra) and ci in (0, 1, 2, 3, 7, 8, 9):
                 g = cache.get(canonical)
                 ok = ok and g is not None and g.query == canonical
+    return check(ok)
+
+
+def ob_input_step(v: int, pre: int, with_prefix: bool) -> bool:
+    """
+    pre: -99 <= v <= 99 and 0 <= pre <= 3
+    post: _
+    """
+    ci, clause = part("config"), part("clause")
+    pre = pick(pre, 4)
+    # Q evaluated with an injected input value (explicit cache object): "addn-5" (empty predecessor) or "addn-5/addn-2"
+    q = "addn-5/addn-2" if with_prefix else "addn-5"
+    def mksubs():      # fresh objects per evaluation: a volatile predecessor is (by design) not cloned by evaluate_action
+        return {"addn-5": mkstate("addn-5", Box(v + 5), volatile=True)} if with_prefix else {}
+    kw = dict(input_value=Box(v), input_value_specified=True)
+    with quiet():
+        c0 = HContext(NoCache(), mksubs())
+        ref = c0.evaluate(q, cache=c0._cache, **kw)
+        with nt():
+            cache = mkcache(ci)
+        if pre == 1:
+            cache.store_metadata(dict(query=q, status="evaluation", is_error=False, attributes={}))
+        elif pre == 3:
+            cache.store_metadata(dict(query=q, status="error", is_error=True, attributes={}, log=[], message="old failure"))
+        elif pre == 2:
+            return True          # a fresh evaluation of Q without input fails (addn on None): no ready entry can exist
+        c1 = HContext(cache, mksubs())
+        del CALLS[:]
+        out = c1.evaluate(q, cache=cache, **kw)
+        ok = (not ref.is_error) and ref.data.v == v + (7 if with_prefix else 5)
+        if clause == "C04":
+            ok = ok and outcome(out)[:2] == outcome(ref)[:2]
+        else:
+            # nothing evaluated with an injected input value may become retrievable as data (a fresh evaluation of Q fails)
+            for key in set(list(cache.keys()) + [q]):
+                try:
+                    g = cache.get(key)
+                except Exception:
+                    g = None
+                ok = ok and g is None
     return check(ok)
 
 
@@ -167,6 +214,10 @@ def cache_obligations(tier, clause):
                                  "{absent, progress metadata, ready entry, stale error metadata}" % (
                                      FAMILY[qi][0], " with extra_parameters=[5]" if FAMILY[qi][2] else "", CONFIGS[ci],
                                      " (pool of 5: serialising cache)" if ci in SERIALISING else "")))
+    if clause in ("C04", "C05"):
+        for ci in configs:
+            obs.append(Ob("ob_input_step", dict(config=ci, clause=clause), timeout=200 if q else 900, per_path=60, twin_timeout=60,
+                          bounds="Q=addn-5 / addn-5/addn-2 evaluated with an injected input value and an explicit cache=%s; data int -99..99, cache pre-state" % CONFIGS[ci]))
     return obs
 
 
